@@ -798,6 +798,12 @@ func (r *runner) annotateBlock(kinds []string, reqs []*blockReq, note string) {
 		} else if joiners[who] && (v.Rule == "view-assets" || v.Rule == "joiner-state-mismatch" && strings.Contains(v.Detail, "asset instances")) && r.relayBefore(who, 203, 200) {
 			mark = " [observer joined during the block and was relayed a change ahead of its ODAL_STATE]"
 		}
+		if len(v.Keys) > 0 && r.aheadOfEntityAdd(reqs, who, v.Keys) {
+			// the change-then-relay window between two requests: something was attached to an
+			// entity that another connection had just added, and the relay of the attachment
+			// reached the observer before the relay that adds the entity
+			mark += fmt.Sprintf(" [the differing entries %v were relayed to the observer ahead of the relay that adds their entity]", v.Keys)
+		}
 		if len(v.Keys) > 0 && r.listOvertaken(reqs, who, v.Keys) {
 			// the known stale-snapshot window once more: the list answer was computed, a change
 			// of the very entry was relayed to the requester, then the (stale) answer was enqueued
@@ -874,6 +880,80 @@ func contended(reqs []*blockReq) map[string]bool {
 		}
 	}
 	return out
+}
+
+// aheadOfEntityAdd: every key (action:E/name, comp:{t E}) names an entity E whose
+// EntityAddBroadcast reached the client in its current window only after a relay that attaches
+// that very entry to E.
+func (r *runner) aheadOfEntityAdd(reqs []*blockReq, label string, keys []string) bool {
+	for _, c := range r.clients {
+		if c.Label != label {
+			continue
+		}
+		attachedAt := map[string]int{}
+		addedAt := map[uint32]int{}
+		for i, m := range c.Since() {
+			switch x := m.Msg.(type) {
+			case *hagallpb.EntityAddBroadcast:
+				if _, ok := addedAt[x.GetEntity().GetId()]; !ok {
+					addedAt[x.GetEntity().GetId()] = i
+				}
+			case *vikjapb.EntityActionBroadcast:
+				k := fmt.Sprintf("action:%d/%s", x.GetEntityAction().GetEntityId(), x.GetEntityAction().GetName())
+				if _, ok := attachedAt[k]; !ok {
+					attachedAt[k] = i
+				}
+			case *hagallpb.EntityComponentAddBroadcast:
+				k := fmt.Sprintf("comp:%v", CKey{x.GetEntityComponent().GetEntityComponentTypeId(), x.GetEntityComponent().GetEntityId()})
+				if _, ok := attachedAt[k]; !ok {
+					attachedAt[k] = i
+				}
+			}
+		}
+		// the observer may be the author: then the answer to its own request takes the place of
+		// the relay (it named an entity it had not been told about yet)
+		for _, q := range reqs {
+			if q.c != c || q.p == nil {
+				continue
+			}
+			k := ""
+			switch a := q.p.Req.(type) {
+			case *vikjapb.EntityActionRequest:
+				k = fmt.Sprintf("action:%d/%s", a.GetEntityAction().GetEntityId(), a.GetEntityAction().GetName())
+			case *hagallpb.EntityComponentAddRequest:
+				k = fmt.Sprintf("comp:%v", CKey{a.EntityComponentTypeId, a.EntityId})
+			}
+			if k == "" {
+				continue
+			}
+			for i, m := range c.Since() {
+				if m.ReqID == q.p.RID && q.p.RID != 0 {
+					if _, ok := attachedAt[k]; !ok {
+						attachedAt[k] = i
+					}
+					break
+				}
+			}
+		}
+		for _, k := range keys {
+			var e, t uint32
+			switch {
+			case strings.HasPrefix(k, "action:"):
+				fmt.Sscanf(k, "action:%d/", &e)
+			case strings.HasPrefix(k, "comp:{"):
+				fmt.Sscanf(k, "comp:{%d %d}", &t, &e)
+			default:
+				return false
+			}
+			at, ok1 := attachedAt[k]
+			ad, ok2 := addedAt[e]
+			if !ok1 || !ok2 || at > ad {
+				return false
+			}
+		}
+		return len(keys) > 0
+	}
+	return false
 }
 
 // listOvertaken: label issued a component list request in this block and, in its window, a
